@@ -24,6 +24,8 @@ from typing import Any
 
 from hypothesis import strategies as st
 
+# one chain: of any two names one is a (word-aligned) suffix of the other
+AFFIX_WORDS = ["Pet", "NewPet", "OldNewPet", "VeryOldNewPet", "MyVeryOldNewPet", "NotMyVeryOldNewPet", "AbsolutelyNotMyVeryOldNewPet"]
 COMP_WORDS = ["Alpha", "Bravo", "Charlie", "Delta", "Echo", "Foxtrot", "Golf", "Hotel", "India", "Juliet", "Kilo", "Lima"]
 PROP_WORDS = ["mike", "november", "oscar", "papa", "quebec", "romeo", "sierra", "tango", "uniform", "victor",
               "whiskey", "xray", "yankee", "zulu"]
@@ -303,6 +305,10 @@ def object_ir(draw, prof, comp_names, depth, allow_allof=False, min_props=0):
 def components(draw, prof, min_schemas=1):
     n = draw(st.integers(min_schemas, prof["max_schemas"]))
     names = draw(st.lists(st.sampled_from(COMP_WORDS), min_size=n, max_size=n, unique=True))
+    if prof.get("affix_names") and draw(st.integers(1, 3 if prof["affix_names"] is True else int(prof["affix_names"]))) == 1:
+        # names of which one is a suffix of another (Pet / NewPet / OldNewPet): string tests on names and references are easy to
+        # get wrong exactly there
+        names = draw(st.lists(st.sampled_from(AFFIX_WORDS), min_size=n, max_size=n, unique=True))
     out = []
     for i, nm in enumerate(names):
         r = draw(st.integers(0, 9))
@@ -375,7 +381,7 @@ def components(draw, prof, min_schemas=1):
     if prof["allof"]:
         objs = [i for i, (_, s) in enumerate(out) if s["k"] == "object"]
         for idx in objs:
-            if len(objs) > 1 and draw(st.integers(0, 4)) == 0:
+            if len(objs) > 1 and draw(st.integers(1, int(prof.get("allof_one_in", 5)))) == 1:
                 cmap = dict(out)
                 # the parent must not reach the child through references (a parent that refers back to its
                 # allOf child makes the generator drop both with a diagnostic; such documents are not "clean")
